@@ -585,7 +585,7 @@ func (f *FS) GoReadDir(path string) ([]iofs.FileInfo, error) {
 // goWriteFault decides whether a Go-level data write to abs is the one that
 // hits the full disk; it returns how many bytes are stored.
 func (f *FS) goWriteFault(abs string, n int) (int, bool) {
-	if f.s.Cfg.DiskFullAt <= 0 || n == 0 || !strings.Contains(abs, "/_scipipe_tmp") {
+	if f.s.Cfg.DiskFullAt <= 0 || n == 0 || !(strings.Contains(abs, "/_scipipe_tmp") || strings.HasSuffix(abs, ".audit.json")) {
 		return n, false
 	}
 	f.goWrites++
